@@ -232,14 +232,88 @@ pub mod rng {
         TOKEN_STATE.with(|t| t.set(seed));
     }
 
-    pub fn next_token() -> Option<[u8; 32]> {
-        TOKEN_STATE.with(|t| {
-            let state = t.get()?;
-            let mut rng = DetRng::new(state);
-            let mut data = [0u8; 32];
-            let _ = rng.try_fill_bytes(&mut data);
-            t.set(Some(rng.0));
-            Some(data)
-        })
+    /// Randomness source for verify tokens: the seeded per-thread stream, or the OS generator when
+    /// this thread is not seeded. Only the source is swapped; the caller's own code builds the token.
+    pub struct TokenRng;
+
+    impl TokenRng {
+        fn with_det<T>(f: impl FnOnce(&mut DetRng) -> T) -> Option<T> {
+            TOKEN_STATE.with(|t| {
+                let state = t.get()?;
+                let mut rng = DetRng::new(state);
+                let out = f(&mut rng);
+                t.set(Some(rng.0));
+                Some(out)
+            })
+        }
     }
+
+    impl TryRng for TokenRng {
+        type Error = rand::rngs::SysError;
+        fn try_next_u32(&mut self) -> Result<u32, Self::Error> {
+            match Self::with_det(|r| r.next() as u32) {
+                Some(v) => Ok(v),
+                None => rand::rngs::SysRng.try_next_u32(),
+            }
+        }
+        fn try_next_u64(&mut self) -> Result<u64, Self::Error> {
+            match Self::with_det(|r| r.next()) {
+                Some(v) => Ok(v),
+                None => rand::rngs::SysRng.try_next_u64(),
+            }
+        }
+        fn try_fill_bytes(&mut self, dst: &mut [u8]) -> Result<(), Self::Error> {
+            match Self::with_det(|r| {
+                let _ = r.try_fill_bytes(dst);
+            }) {
+                Some(()) => Ok(()),
+                None => rand::rngs::SysRng.try_fill_bytes(dst),
+            }
+        }
+    }
+
+    impl TryCryptoRng for TokenRng {}
+
+    /// Randomness source for the process-wide RSA key pair: seeded when `set_key_seed` was called,
+    /// otherwise the OS generator.
+    pub enum KeyRng {
+        Det(DetRng),
+        Sys,
+    }
+
+    impl KeyRng {
+        pub fn new() -> Self {
+            match key_seed() {
+                Some(seed) => Self::Det(DetRng::new(seed)),
+                None => Self::Sys,
+            }
+        }
+    }
+
+    impl TryRng for KeyRng {
+        type Error = rand::rngs::SysError;
+        fn try_next_u32(&mut self) -> Result<u32, Self::Error> {
+            match self {
+                Self::Det(r) => Ok(r.next() as u32),
+                Self::Sys => rand::rngs::SysRng.try_next_u32(),
+            }
+        }
+        fn try_next_u64(&mut self) -> Result<u64, Self::Error> {
+            match self {
+                Self::Det(r) => Ok(r.next()),
+                Self::Sys => rand::rngs::SysRng.try_next_u64(),
+            }
+        }
+        fn try_fill_bytes(&mut self, dst: &mut [u8]) -> Result<(), Self::Error> {
+            match self {
+                Self::Det(r) => {
+                    let _ = r.try_fill_bytes(dst);
+                    Ok(())
+                }
+                Self::Sys => rand::rngs::SysRng.try_fill_bytes(dst),
+            }
+        }
+    }
+
+    impl TryCryptoRng for KeyRng {}
 }
